@@ -34,6 +34,7 @@ namespace tl
     // a second list template, a class template used by transform, lazy operands of eval_if
     template <class... T> struct other {};
     template <class T> struct W {};
+    template <class T, class U = void> struct W2 {};          // a second, defaulted parameter: F<T> is W2<T, void>
     template <class T> struct id { using type = T; };
     struct notype {};
 
